@@ -255,12 +255,19 @@ func histCfgLine(h *hdrhist.Histogram) string {
 }
 
 func recordAll(o *Out, line string, h *hdrhist.Histogram, mx int64, vs []int64) (acc []int64) {
+	stats := func() [5]int64 {
+		return [5]int64{h.Max(), h.Min(), int64(math.Float64bits(h.Mean())), h.ValueAtQuantile(50), h.ValueAtQuantile(99.9)}
+	}
 	for _, v := range vs {
 		before := h.Export().Counts
 		bt := h.TotalCount()
+		sb := stats()
 		if err := h.RecordValue(v); err == nil {
 			acc = append(acc, v)
 			continue
+		}
+		if sa := stats(); sa != sb {
+			o.violation(line, "rejected value changed what the histogram reports (Max, Min, Mean or a quantile)", map[string]interface{}{"v": v, "before": sb, "after": sa})
 		}
 		if v >= 0 && v <= mx {
 			o.violation(line, "RecordValue rejects a value within the trackable range", map[string]int64{"v": v})
@@ -550,6 +557,15 @@ func genMultiset(rng *rand.Rand, mx int64, n int) []int64 {
 		}
 		if v < 0 {
 			v = 0
+		}
+		// values that the histogram must refuse: far above the array's capacity, or negative
+		switch rng.Intn(60) {
+		case 0:
+			v = mx*int64(2+rng.Intn(6)) + int64(rng.Intn(100))
+		case 1:
+			v = int64(1)<<uint(45+rng.Intn(17)) + int64(rng.Intn(1000))
+		case 2:
+			v = -1 - int64(rng.Intn(5))
 		}
 		vs = append(vs, v)
 	}
